@@ -1,0 +1,15 @@
+// Copyright The gittuf Authors
+// SPDX-License-Identifier: Apache-2.0
+
+//go:build verif
+
+// gvc contracts (comment-only, read under the "verif" build tag).
+
+package sigstore
+
+//@ # Assumption: a Sigstore key's KeyID is "<identity>::<issuer>" (how NewKeyFromIdentityAndIssuer builds it),
+//@ # which is what the verifier reports as its key id.
+//@ func NewVerifierFromIdentityAndIssuer -> (v)
+//@   trusted
+//@   pure
+//@   ensures v != nil && vKeyID(toIfc(v)) == identity + "::" + issuer
